@@ -271,7 +271,8 @@ pub fn c03_case(data: &[u8]) -> c03::Case {
             }
         }
     });
-    c03::Case { slots, storage_delta, trains, merge, faults }
+    let forge_crc = d.pick(3) == 0;
+    c03::Case { slots, storage_delta, trains, merge, faults, forge_crc }
 }
 
 pub fn send_one(d: &mut D, with_exts: bool, handmade: bool) -> sender::SendOne {
